@@ -33,6 +33,17 @@ def obligations(ctx):
             i = E_.choose([g_min, z3.Not(g_min)], "min ada")
             return VEnum("Result", "Ok", [VM.bn(minada)]) if i == 0 else VEnum("Result", "Err", [VOpaque("err")])
         E.extra_intrinsics[r"(^|::)min_ada_for_output$"] = ms
+        # a minimum computed by a detached calculator (not from the output itself) is some OTHER number
+        def detached(E_, c, args):
+            good = E_.fresh("detached_min_ada_ok", "bool")
+            if E_.choose([good, z3.Not(good)], "detached min ada") == 1:
+                return VEnum("Result", "Err", [VOpaque("err")])
+            v = E_.fresh("detached_min_ada")
+            E_.pc.append(z3.And(v >= 0, v <= U64))
+            return VEnum("Result", "Ok", [VM.bn(v)])
+        E.extra_intrinsics[r"MinOutputAdaCalculator::calculate_ada$"] = detached
+        E.extra_intrinsics[r"MinOutputAdaCalculator::new_empty$"] = lambda E_, c, a: VEnum("Result", "Ok", [VOpaque("calc")])
+        E.extra_intrinsics[r"MinOutputAdaCalculator::set_\w+$"] = lambda E_, c, a: UNIT
 
     # ------------------------------------------------------------------ explicit return -> total
     E = Engine(P)
@@ -49,7 +60,7 @@ def obligations(ctx):
         out = E.mk_struct("TransactionOutput", address=VLazy("ret_addr", "Address"), amount=ret.build())
         return [R(tb, "self"), R(out, "collateral_return")]
     ob = Obligation(ctx, "c19_e2_set_collateral_return_and_total", "collateral inputs' total and the return output: lovelace all u64, one arbitrary asset all u64, other assets abstract; "
-                    "min-ADA result arbitrary; previously set fields arbitrary", ["TransactionBuilder::set_collateral_return_and_total", "Value::checked_sub (summary)"])
+                    "min-ADA result arbitrary; previously set fields arbitrary", ["TransactionBuilder::set_collateral_return_and_total", "Value::checked_sub (summary)"], fallback_native="e2n_c19_return_min_ada")
     nok = 0
     for o in E.explore("TransactionBuilder::set_collateral_return_and_total", mk):
         if o.kind != "return":
@@ -97,7 +108,7 @@ def obligations(ctx):
                          total_collateral=opt(None))
         return [R(tb, "self"), R(VM.bn(want), "total"), R(VLazy("ret_addr", "Address"), "addr")]
     ob = Obligation(ctx, "c19_e2_set_total_collateral_and_return", "collateral inputs' total: lovelace all u64, one arbitrary asset all u64; requested total: all u64; a return set by an earlier call may be present",
-                    ["TransactionBuilder::set_total_collateral_and_return", "Value::checked_sub (summary)"])
+                    ["TransactionBuilder::set_total_collateral_and_return", "Value::checked_sub (summary)"], fallback_native="e2n_c19_return_min_ada")
     nok = 0
     for o in E.explore("TransactionBuilder::set_total_collateral_and_return", mk):
         if o.kind != "return":
